@@ -264,6 +264,23 @@ func runC07(c *core.Ctx) {
 			c.Count("slow_ms_"+cell.kind+"/"+cell.entry+"/"+cell.state+"/"+cell.shape+"/"+cell.mode.String(), d.Milliseconds())
 		}
 	}
+	// the head handler itself raises (unsupported message type): consumed => the channel stays usable
+	ui := 0
+	for _, mode := range []mon.Mode{mon.Sync, mon.Blocking, mon.NonBlock} {
+		for _, shape := range []string{"swallows", "two"} {
+			for _, bad := range []netty.Message{42, "a string", struct{ X int }{1}} {
+				ui++
+				if !c.Mine(ui) {
+					continue
+				}
+				id := fmt.Sprintf("unsupported/%s/%s/%T", mode, shape, bad)
+				if !c.Case(id) {
+					continue
+				}
+				c07Unsupported(c, id, mode, shape, bad)
+			}
+		}
+	}
 	// transport faults
 	fi := 0
 	for _, mode := range []mon.Mode{mon.Sync, mon.Blocking, mon.NonBlock} {
@@ -549,8 +566,15 @@ func c07Run(c *core.Ctx, id string, cell c07Cell) {
 		}
 		return
 	}
-	// a following write reaches the wire
-	rig.Ch.Write([]byte("after-panic"))
+	// a following write reaches the wire (and returns)
+	if st := c07WriteWD(rig.Ch, []byte("after-panic")); st != "" {
+		if st == "blocked" {
+			viol("following-write-blocked-forever", "after a consumed handler panic a following Channel.Write never returned (still blocked inside the head handler after 5 s)")
+		} else {
+			c.Inconclusive(id, "watchdog: follow-up write did not return")
+		}
+		return
+	}
 	rig.Ex.WaitOutstanding(1, 5*time.Second)
 	if !containsBytes(rig.T.Wire(), []byte("after-panic")) {
 		viol("channel-unusable-after-consumed-panic", "after a consumed handler panic a following write never reached the transport")
@@ -558,6 +582,26 @@ func c07Run(c *core.Ctx, id string, cell c07Cell) {
 	c.Count("usable_after_consumed", 1)
 	if c.WantSample() {
 		c.Sample(map[string]interface{}{"cell": cell.String(), "exceptions_seen": len(excs), "closed": !rig.Ch.IsActive()})
+	}
+}
+
+// c07WriteWD performs Channel.Write with a watchdog: "" = returned, "blocked" = still parked in the
+// head handler on a mutex after 5 s (a definite stuck state), "timeout" otherwise.
+func c07WriteWD(ch netty.Channel, msg netty.Message) string {
+	done := make(chan struct{})
+	go func() {
+		defer close(done)
+		defer func() { recover() }()
+		ch.Write(msg)
+	}()
+	select {
+	case <-done:
+		return ""
+	case <-time.After(5 * time.Second):
+		if mon.ParkedIn("headHandler.HandleWrite", "sync.Mutex.Lock", "semacquire") > 0 {
+			return "blocked"
+		}
+		return "timeout"
 	}
 }
 
@@ -697,9 +741,21 @@ func c07Fault(c *core.Ctx, id string, mode mon.Mode, op string, k, ek int, swall
 	} else {
 		// drive enough writes through Channel.Write for the k-th transport call to happen
 		for i := 0; i < 4 && escaped == nil; i++ {
-			i := i
-			call(func() { rig.Ch.Write(mon.Payload(1, i, 32)) })
-			call(func() { rig.Ch.Write([][]byte{mon.Payload(2, i, 32)}) })
+			for _, msg := range []netty.Message{mon.Payload(1, i, 32), [][]byte{mon.Payload(2, i, 32)}} {
+				msg := msg
+				done := make(chan struct{})
+				go func() { defer close(done); call(func() { rig.Ch.Write(msg) }) }()
+				select {
+				case <-done:
+				case <-time.After(5 * time.Second):
+					if mon.ParkedIn("headHandler.HandleWrite", "sync.Mutex.Lock", "semacquire") > 0 {
+						viol("following-write-blocked-forever", "after a transport write failure that a handler consumed, the next Channel.Write never returned (blocked inside the head handler)")
+					} else {
+						c.Inconclusive(id, "watchdog: Channel.Write did not return")
+					}
+					return
+				}
+			}
 			if mode != mon.Sync {
 				rig.Ex.WaitOutstanding(1, 5*time.Second)
 			}
@@ -795,8 +851,57 @@ func c07Fault(c *core.Ctx, id string, mode mon.Mode, op string, k, ek int, swall
 		if len(seen) < 1 || !errors.Is(seen[0], ferr) {
 			viol("write-failure-not-routed", fmt.Sprintf("a failing synchronous transport write was not delivered as that exception (saw %v)", seen))
 		}
+		if swallow && ek != 2 && rig.Ch.IsActive() {
+			if st := c07WriteWD(rig.Ch, []byte("after-fault")); st == "blocked" {
+				viol("following-write-blocked-forever", "after a consumed synchronous write failure a following Channel.Write never returned")
+			} else if st == "" {
+				if mode != mon.Sync {
+					rig.Ex.WaitOutstanding(1, 5*time.Second)
+				}
+				if !containsBytes(rig.T.Wire(), []byte("after-fault")) {
+					viol("channel-unusable-after-consumed-panic", "after a consumed write failure a following write never reached the transport")
+				}
+			}
+		}
 		c.Count("sync_write_failures_checked", 1)
 	}
 }
 
 var _ net.Error = tmoErr{}
+
+func c07Unsupported(c *core.Ctx, id string, mode mon.Mode, shape string, bad netty.Message) {
+	cell := c07Cell{n: 1, pos: 1, kind: "none", entry: "Channel.Write", val: 0, shape: shape, state: "open", mode: mode}
+	rig, _, excs, _, _ := c07Build(cell)
+	defer rig.Dispose()
+	c.Count("unsupported_cells", 1)
+	c.Sig("unsupported", mode, shape, fmt.Sprintf("%T", bad))
+	if st := c07WriteWD(rig.Ch, bad); st != "" {
+		c.Inconclusive(id, "watchdog on the unsupported write")
+		return
+	}
+	for _, e := range excs {
+		e.mu.Lock()
+		n := len(e.seen)
+		e.mu.Unlock()
+		if n != 1 {
+			c.Violation("C07:exception-count", id, fmt.Sprintf("unsupported message type %T: exception handler %q saw %d exceptions", bad, e.name, n), nil)
+			return
+		}
+	}
+	if !rig.Ch.IsActive() {
+		c.Violation("C07:consumed-exception-closed-channel", id, fmt.Sprintf("the exception for an unsupported message type %T was consumed but the channel was closed", bad), nil)
+		return
+	}
+	switch c07WriteWD(rig.Ch, []byte("after-unsupported")) {
+	case "blocked":
+		c.Violation("C07:following-write-blocked-forever", id, fmt.Sprintf("after a consumed exception for an unsupported message type %T the next Channel.Write never returned (blocked inside the head handler) [mode=%s]", bad, mode), nil)
+		return
+	case "timeout":
+		c.Inconclusive(id, "watchdog on the follow-up write")
+		return
+	}
+	rig.Ex.WaitOutstanding(1, 5*time.Second)
+	if !containsBytes(rig.T.Wire(), []byte("after-unsupported")) {
+		c.Violation("C07:channel-unusable-after-consumed-panic", id, "after a consumed unsupported-type exception a following write never reached the transport", nil)
+	}
+}
